@@ -155,7 +155,7 @@ def as_type(data, ctype):
     if ctype == "memoryview":
         return memoryview(data)
     if data.startswith(b"\xef\xbb\xbf"):
-        return None
+        return data                 # a BOM is a matter of bytes: keep the bytes
     return data.decode("ascii")
 
 
@@ -487,7 +487,8 @@ def q_planted():
 ENTRY_CTOR = {
     "parse-string": "EParseString", "parse-file": "EParseFile", "client-reply": "EClientReply",
     "client-msg": "EClientMsg", "reader-store": "EReaderFetch", "reader-transport": "EReaderFetch",
-    "reader-cache": "EReaderFetch", "client-load": "EReaderFetch", "doccache-get": "EDocCacheGet",
+    "reader-cache": "EReaderFetch", "reader-plugin": "EReaderFetch", "client-load": "EReaderFetch",
+    "doccache-get": "EDocCacheGet",
 }
 
 # ---------------------------------------------------------------------------
@@ -942,9 +943,10 @@ def E(name, attrs, *kids):
     return toks
 
 
-def wsdl_body(doc_toks, loc_atoks, tns_atoks, imp_url, extra_import=None, inc_url=None):
+def wsdl_body(doc_toks, loc_atoks, tns_atoks, imp_url, extra_import=None, inc_url=None,
+              schema_extra=(), defs_extra=()):
     types_kids = []
-    schema_kids = []
+    schema_kids = list(schema_extra)
     if imp_url:
         schema_kids.append(E("xsd:import", [("namespace", IMP_NS), ("schemaLocation", imp_url)]))
     if inc_url:
@@ -957,7 +959,7 @@ def wsdl_body(doc_toks, loc_atoks, tns_atoks, imp_url, extra_import=None, inc_ur
                            E("xsd:element", [("name", "result"), ("type", "xsd:string")])))))
     types_kids.append(E("xsd:schema", [("targetNamespace", tns_atoks), ("elementFormDefault", "qualified")],
                         *schema_kids))
-    kids = [E("wsdl:documentation", [], doc_toks)]
+    kids = [E("wsdl:documentation", [], doc_toks)] + list(defs_extra)
     if extra_import:
         kids.append(E("wsdl:import", [("namespace", "urn:c20:w2"), ("location", extra_import)]))
     kids += [
@@ -979,9 +981,9 @@ def wsdl_body(doc_toks, loc_atoks, tns_atoks, imp_url, extra_import=None, inc_ur
                                   ("xmlns:wsdl", WSDL_NS), ("xmlns:xsd", XSD_NS)], *kids)
 
 
-def xsd_body(doc_toks, name_atoks, tns=IMP_NS):
+def xsd_body(doc_toks, name_atoks, tns=IMP_NS, extra=()):
     return E("xsd:schema", [("targetNamespace", tns), ("xmlns:xsd", XSD_NS)],
-             E("xsd:annotation", [], E("xsd:documentation", [], doc_toks)),
+             *(list(extra) + [E("xsd:annotation", [], E("xsd:documentation", [], doc_toks))]),
              E("xsd:simpleType", [("name", name_atoks)], E("xsd:restriction", [("base", "xsd:string")])))
 
 
@@ -994,6 +996,59 @@ def reply_body(result_toks, attr_atoks):
     return E("env:Envelope", [("xmlns:env", ENV_NS), ("xmlns:ns", TNS)],
              E("env:Header", [("k", attr_atoks)]),
              E("env:Body", [], E("ns:fResponse", [], E("ns:result", [], result_toks))))
+
+
+VENDOR_NS = "urn:c20:vendor:documentation-tooling"
+
+
+def lookalike_targets(pre):
+    return [WORLD.sysid[1], WORLD.sysid[2], WORLD.sysid[3], WORLD.sysid[4], WORLD.sysid[5],
+            pre + "decoy.xsd", "decoy.xsd", url_prefix("file") + "decoy.xsd", url_prefix("loop") + "decoy.xsd"]
+
+
+def g_lookalikes_schema(rng, pre):
+    """Children of an xs:schema that LOOK like import / include but are not in the XSD namespace
+    (vendor extensions, documentation tooling, annotation/appinfo content): they name nothing."""
+    ts = lookalike_targets(pre)
+    out = []
+    for _ in range(rng.randrange(1, 4)):
+        t = rng.choice(ts)
+        k = rng.randrange(6)
+        if k == 0:
+            out.append(E("doc:include", [("xmlns:doc", VENDOR_NS), ("schemaLocation", t)]))
+        elif k == 1:
+            out.append(E("doc:import", [("xmlns:doc", VENDOR_NS), ("namespace", "urn:c20:decoy"),
+                                        ("schemaLocation", t)]))
+        elif k == 2:
+            out.append(E("include", [("xmlns", VENDOR_NS), ("schemaLocation", t)]))
+        elif k == 3:
+            out.append(E("xsd:annotation", [], E("xsd:appinfo", [],
+                         E("doc:include", [("xmlns:doc", VENDOR_NS), ("schemaLocation", t)]),
+                         E("doc:import", [("xmlns:doc", VENDOR_NS), ("schemaLocation", rng.choice(ts))]))))
+        elif k == 4:
+            out.append(E("doc:redefine", [("xmlns:doc", VENDOR_NS), ("schemaLocation", t)]))
+        else:
+            out.append(E("import", [("xmlns", VENDOR_NS), ("namespace", "urn:c20:decoy"), ("schemaLocation", t),
+                                    ("location", rng.choice(ts))]))
+    return out
+
+
+def g_lookalikes_wsdl(rng, pre):
+    """Children of wsdl:definitions in a foreign namespace named import, and documentation content."""
+    ts = lookalike_targets(pre)
+    out = []
+    k = rng.randrange(3)
+    if k == 0:
+        out.append(E("ext:import", [("xmlns:ext", VENDOR_NS), ("namespace", "urn:c20:decoy"),
+                                    ("location", rng.choice(ts))]))
+    elif k == 1:
+        out.append(E("import", [("xmlns", VENDOR_NS), ("location", rng.choice(ts)),
+                                ("schemaLocation", rng.choice(ts))]))
+    else:
+        out.append(E("wsdl:documentation", [], E("ext:import", [("xmlns:ext", VENDOR_NS),
+                                                                ("location", rng.choice(ts))]),
+                     E("ext:include", [("xmlns:ext", VENDOR_NS), ("schemaLocation", rng.choice(ts))])))
+    return out
 
 
 def declared_names(subset):
@@ -1074,41 +1129,65 @@ def _finish(o, ctx):
     return o
 
 
-def run_parse_string(suds, doc, data):
+def _observe(o, fn):
+    """Run fn() -> Document/Element/None, canonicalise the outcome."""
+    try:
+        d = fn()
+        root = None
+        if d is not None:
+            root = d.root() if hasattr(d, "root") else d
+        if root is None:
+            o.kind = "none"
+        else:
+            o.kind, o.flat = "doc", flat_tree(root)
+    except Exception as e:   # noqa
+        o.kind, o.exc = "raise", repr(e)
+
+
+def run_parse_string(suds, doc, data, ctype="bytes"):
     o = Outcome("parse-string", doc, data)
+    o.ctype = ctype
+    content = as_type(data, ctype)
     with audited() as ctx:
-        try:
-            d = suds.sax.parser.Parser().parse(string=data)
-            root = d.root() if d is not None else None
-            if root is None:
-                o.kind = "none"
-            else:
-                o.kind, o.flat = "doc", flat_tree(root)
-        except Exception as e:   # noqa
-            o.kind, o.exc = "raise", repr(e)
+        _observe(o, lambda: suds.sax.parser.Parser().parse(string=content))
     return _finish(o, ctx)
 
 
-def run_parse_file(suds, doc, data, real_file, counter=[0]):
+class _OnlyRead(object):
+    """A minimal file-like object: read() and close(), nothing else."""
+
+    def __init__(self, data):
+        self._f = io.BytesIO(data)
+
+    def read(self, n=-1):
+        return self._f.read(n)
+
+    def close(self):
+        self._f.close()
+
+
+FILE_KINDS = ["real-file", "bytesio", "only-read", "stringio"]
+
+
+def run_parse_file(suds, doc, data, kind="bytesio", counter=[0]):
     o = Outcome("parse-file", doc, data)
-    if real_file:
+    o.ctype = kind
+    if kind == "stringio" and data.startswith(b"\xef\xbb\xbf"):
+        kind = "bytesio"
+    if kind == "real-file":
         counter[0] += 1
         path = os.path.join(WORLD.cwd, "doc-%d.xml" % (counter[0] % 8))
         with open(path, "wb") as f:
             f.write(data)
         fp = open(path, "rb")
+    elif kind == "only-read":
+        fp = _OnlyRead(data)
+    elif kind == "stringio":
+        fp = io.StringIO(data.decode("ascii"))
     else:
         fp = io.BytesIO(data)
     with audited() as ctx:
-        try:
-            d = suds.sax.parser.Parser().parse(file=fp)
-            root = d.root() if d is not None else None
-            if root is None:
-                o.kind = "none"
-            else:
-                o.kind, o.flat = "doc", flat_tree(root)
-        except Exception as e:   # noqa
-            o.kind, o.exc = "raise", repr(e)
+        _observe(o, lambda: suds.sax.parser.Parser().parse(file=fp))
     try:
         fp.close()
     except Exception:   # noqa
@@ -1125,15 +1204,7 @@ def run_doccache_get(suds, doc, data, counter=[0]):
     with open(path, "wb") as f:
         f.write(data)
     with audited([WORLD.cache]) as ctx:
-        try:
-            d = cache.get(cid)
-            root = d.root() if d is not None else None
-            if root is None:
-                o.kind = "none"
-            else:
-                o.kind, o.flat = "doc", flat_tree(root)
-        except Exception as e:   # noqa
-            o.kind, o.exc = "raise", repr(e)
+        _observe(o, lambda: cache.get(cid))
     o.purged = not os.path.exists(path)
     return _finish(o, ctx)
 
@@ -1141,50 +1212,84 @@ def run_doccache_get(suds, doc, data, counter=[0]):
 _MEM = {}
 
 
-def MemTransport(docs):
-    """In-memory transport: the only documents it serves are the ones the test names."""
+def MemTransport(docs, reply=None):
+    """In-memory transport: the only documents it serves are the ones the test names;
+    `reply`: the message returned for anything sent."""
     cls = _MEM.get("cls")
     if cls is None:
         import suds.transport
 
+        class _Buffer(object):
+            def __init__(self, data):
+                self.data = data
+
+            def read(self):
+                return self.data
+
+            def close(self):
+                pass
+
         class _MemTransport(suds.transport.Transport):
-            def __init__(self, docs):
+            def __init__(self, docs, reply):
                 suds.transport.Transport.__init__(self)
                 self.docs = docs
+                self.reply = reply
                 self.requested = []
+                self.sent = 0
 
             def open(self, request):
                 self.requested.append(request.url)
                 if request.url not in self.docs:
                     raise suds.transport.TransportError("not found: " + request.url, 404)
-                return io.BytesIO(self.docs[request.url])
+                return _Buffer(self.docs[request.url])
 
             def send(self, request):
-                raise suds.transport.TransportError("nothing is ever sent", 500)
+                self.sent += 1
+                if self.reply is None:
+                    raise suds.transport.TransportError("nothing is ever sent", 500)
+                return suds.transport.Reply(200, {}, self.reply)
         cls = _MEM["cls"] = _MemTransport
-    return cls(docs)
+    return cls(docs, reply)
 
 
-def run_reader(suds, doc, data, how, counter=[0]):
-    """suds.reader.DocumentReader.open on an arbitrary document: from a
-    DocumentStore, from a transport, or twice through a DocumentCache."""
+def store_key(url):
+    return url.split("://", 1)[1]
+
+
+def run_reader(suds, doc, data, how, ctype="bytes", urlkind=None, counter=[0]):
+    """suds.reader.DocumentReader.open on an arbitrary document: from a DocumentStore ("store"),
+    from a transport ("transport"), twice through a DocumentCache ("cache"), or with the content
+    replaced by a DocumentPlugin.loaded hook ("plugin").  The content arrives as `ctype`; the URL
+    may be a real location (file://, http://loopback) where DIFFERENT content sits."""
     import suds.options
+    import suds.plugin
     import suds.reader
     import suds.store
     o = Outcome("reader-" + how, doc, data)
+    o.ctype = ctype
     counter[0] += 1
+    content = as_type(data, ctype)
+    if urlkind is None or (how == "transport" and urlkind == "suds"):
+        urlkind = "invalid" if how == "transport" else "suds"      # suds:// is the store's own protocol
+    o.urlkind = urlkind
+    url = url_prefix(urlkind) + "doc-%d.xml" % (counter[0] % 8)
     options = suds.options.Options()
-    tr = None
     if how == "transport":
-        url = "http://c20.invalid/doc-%d.xml" % counter[0]
-        tr = MemTransport({url: data})
-        options.transport = tr
+        tr = MemTransport({url: content})
         options.documentStore = None
-    else:
-        url = "suds://c20/doc-%d.xml" % counter[0]
-        options.documentStore = suds.store.DocumentStore(**{"c20/doc-%d.xml" % counter[0]: data})
+    elif how == "plugin":
+        # the store delivers something else; a `loaded` plugin substitutes the content
         tr = MemTransport({})
-        options.transport = tr
+        options.documentStore = suds.store.DocumentStore(**{store_key(url): b"<placeholder/>"})
+
+        class Subst(suds.plugin.DocumentPlugin):
+            def loaded(self, context):
+                context.document = content
+        options.plugins = [Subst()]
+    else:
+        tr = MemTransport({})
+        options.documentStore = suds.store.DocumentStore(**{store_key(url): content})
+    options.transport = tr
     if how == "cache":
         options.cache = suds.cache.DocumentCache(location=WORLD.cache)
         options.cachingpolicy = 0
@@ -1192,20 +1297,20 @@ def run_reader(suds, doc, data, how, counter=[0]):
     else:
         options.cache = suds.cache.NoCache()
     allowed = [WORLD.cache] if how == "cache" else []
+
+    def go():
+        d = suds.reader.DocumentReader(options).open(url)
+        if how == "cache":
+            # second open is served by DocumentCache.get from the file written by put
+            d2 = suds.reader.DocumentReader(options).open(url)
+            o.second = flat_tree(d2.root())
+        return d
     with audited(allowed) as ctx:
-        try:
-            rd = suds.reader.DocumentReader(options)
-            d = rd.open(url)
-            first = flat_tree(d.root())
-            if how == "cache":
-                # second open is served by DocumentCache.get from the file written by put
-                d2 = suds.reader.DocumentReader(options).open(url)
-                o.second = flat_tree(d2.root())
-            o.kind, o.flat = "doc", first
-        except Exception as e:   # noqa
-            o.kind, o.exc = "raise", repr(e)
-    o.requested = list(tr.requested) if tr else []
-    o.expected_requests = [url] if how == "transport" else []
+        _observe(o, go)
+    o.requested = list(tr.requested)
+    expected = [url] if how == "transport" else []
+    if o.requested != expected:
+        o.fetch_problem = "transport asked for %r, expected %r" % (o.requested, expected)
     return _finish(o, ctx)
 
 
@@ -1295,18 +1400,53 @@ def run_client_msg(suds, client, cap, doc, data):
     return _finish(o, ctx)
 
 
-def run_client_load(suds, docs, root_url, via):
-    """Client construction over a set of named documents; returns one Outcome
-    per document suds fetched.  docs: url -> (doc AST, bytes)."""
+def run_client_send(suds, doc, data, ctype, cache={}):
+    """The reply arrives from the configured transport (not injected) as `ctype`."""
+    import suds.client
+    import suds.store
+    o = Outcome("client-reply", doc, data)
+    o.ctype = ctype
+    if "wsdl" not in cache:
+        cache["wsdl"] = render_doc(mk_doc([], wsdl_body([T("plain")], [("t", "http://c20.invalid/svc")],
+                                                          [("t", TNS)], None)), WORLD.sysid.get)
+    cap = Capture(suds)
+    tr = MemTransport({}, reply=as_type(data, ctype))
+    store = suds.store.DocumentStore(**{"c20/send.wsdl": cache["wsdl"]})
+    client = suds.client.Client("suds://c20/send.wsdl", documentStore=store, cache=None, plugins=cap.plugins,
+                                transport=tr)
+    cap.reset()
+    with audited() as ctx:
+        try:
+            res = client.service.f("x")
+            o.extra_text = repr(res)
+            if cap.reply is None:
+                o.kind = "none"
+            else:
+                o.kind, o.flat = "doc", cap.reply
+        except Exception as e:   # noqa
+            if cap.reply is not None:
+                o.kind, o.flat = "doc", cap.reply
+                o.extra_text = repr(e)
+            else:
+                o.kind, o.exc = "raise", repr(e)
+    if tr.requested:
+        o.fetch_problem = "transport asked for %r while processing a reply" % (tr.requested,)
+    return _finish(o, ctx)
+
+
+def run_client_load(suds, docs, root_url, via, ctype="bytes"):
+    """Client construction over a set of documents; returns one Outcome per document suds
+    fetched.  docs: url -> (doc AST, bytes).  The documents reach suds through a DocumentStore
+    ("store") or a transport ("transport"), as `ctype`."""
     import suds.client
     import suds.store
     cap = Capture(suds)
     if via == "store":
-        store = suds.store.DocumentStore(**{u[len("suds://"):]: b for u, (_, b) in docs.items()})
+        store = suds.store.DocumentStore(**{store_key(u): as_type(b, ctype) for u, (_, b) in docs.items()})
         tr = MemTransport({})
     else:
         store = None
-        tr = MemTransport({u: b for u, (_, b) in docs.items()})
+        tr = MemTransport({u: as_type(b, ctype) for u, (_, b) in docs.items()})
     err = None
     client_text = ""
     with audited() as ctx:
@@ -1327,6 +1467,7 @@ def run_client_load(suds, docs, root_url, via):
         o.events, o.hits, o.raw = ctx.events, ctx.hits, ctx.raw
         o.extra_text = client_text
         o.url = url
+        o.ctype = ctype
         outs.append(o)
     # a document that was loaded but never reported as parsed: the parse raised
     for url in cap.loaded:
@@ -1337,9 +1478,63 @@ def run_client_load(suds, docs, root_url, via):
             o.parsers = ctx.parsers[-1:]
             o.events, o.hits, o.raw = ctx.events, ctx.hits, ctx.raw
             o.url = url
+            o.ctype = ctype
             outs.append(o)
     requested = list(tr.requested)
-    return outs, requested, err, cap
+    return outs, requested, err, cap, ctx
+
+
+# ---------------------------------------------------------------------------
+# the documents a WSDL / schema NAMES (independent of suds: expat in namespace mode)
+# ---------------------------------------------------------------------------
+
+
+def named_refs(data, base_url):
+    """URLs named by import / include references of one document, namespace-aware:
+    {WSDL}definitions/{WSDL}import@location, and for every {XSD}schema that is the root or a child of
+    {WSDL}definitions/{WSDL}types: its children {XSD}import|include|redefine @schemaLocation.
+    Elements of any other namespace never name a document, whatever their local name or attributes."""
+    import xml.parsers.expat as expat
+    p = expat.ParserCreate(namespace_separator=" ")
+    p.SetParamEntityParsing(expat.XML_PARAM_ENTITY_PARSING_UNLESS_STANDALONE)
+    p.ExternalEntityRefHandler = lambda *a: 1        # nothing external is ever read
+    stack = []
+    refs = []
+
+    def start(name, attrs):
+        path = tuple(stack)
+        stack.append(name)
+        loc = None
+        if name == WSDL_NS + " import" and path == (WSDL_NS + " definitions",):
+            loc = attrs.get("location")
+        elif name in (XSD_NS + " import", XSD_NS + " include", XSD_NS + " redefine") and path in (
+                (XSD_NS + " schema",), (WSDL_NS + " definitions", WSDL_NS + " types", XSD_NS + " schema")):
+            loc = attrs.get("schemaLocation")
+        if loc:
+            refs.append(urllib.parse.urljoin(base_url, loc) if "://" not in loc else loc)
+
+    def end(name):
+        stack.pop()
+    p.StartElementHandler = start
+    p.EndElementHandler = end
+    try:
+        p.Parse(bytes(data), True)
+    except expat.ExpatError:
+        return []            # an ill-formed document names nothing (suds raises on it)
+    return refs
+
+
+def named_closure(docs, root_url):
+    """All documents named, transitively, starting from the one the caller named."""
+    named, todo = [], [root_url]
+    while todo:
+        u = todo.pop(0)
+        if u in named:
+            continue
+        named.append(u)
+        if u in docs:
+            todo.extend(named_refs(docs[u][1], u))
+    return named
 
 
 # ---------------------------------------------------------------------------
@@ -1413,37 +1608,63 @@ def _run(ck, suds, proof_ok):
     run_reader(suds, warm, wdata, "cache")
 
     # ---- 1. grid: construct x system identifier kind x entry point --------
+    # Every document is rendered in a model-irrelevant surface variant (XML declaration with version /
+    # encoding / standalone yes|no|absent, quotes, BOM, comments, white space) and handed over as a
+    # bytes / bytearray / memoryview (/ str) buffer under suds://, http://, file:// and loopback URLs.
     grid = grid_docs()
     generic_entries = ["parse-string", "parse-file", "doccache-get", "reader-store", "reader-transport",
-                       "client-reply", "client-msg", "reader-cache"]
+                       "client-reply", "client-msg", "reader-cache", "reader-plugin"]
+    CT3 = CTYPES[:3]
 
-    def run_generic(entry, doc, data, k):
+    def run_generic(entry, doc, data, n):
+        lenient = False
         if entry == "parse-string":
-            return run_parse_string(suds, doc, data)
-        if entry == "parse-file":
-            return run_parse_file(suds, doc, data, real_file=(k % 2 == 0))
-        if entry == "doccache-get":
-            return run_doccache_get(suds, doc, data)
-        if entry == "client-reply":
-            return run_client_reply(suds, reply_client, reply_cap, doc, data)
-        if entry == "client-msg":
-            return run_client_msg(suds, reply_client, reply_cap, doc, data)
-        return run_reader(suds, doc, data, entry.split("-", 1)[1])
+            ct = "str" if n % 9 == 4 else CT3[n % 3]
+            o = run_parse_string(suds, doc, data, ct)
+        elif entry == "parse-file":
+            o = run_parse_file(suds, doc, data, FILE_KINDS[n % 4])
+        elif entry == "doccache-get":
+            o = run_doccache_get(suds, doc, data)
+        elif entry == "client-reply":
+            if n % 3 == 2:
+                o = run_client_send(suds, doc, data, CT3[(n // 3) % 3])
+            else:
+                o = run_client_reply(suds, reply_client, reply_cap, doc, data)
+        elif entry == "client-msg":
+            o = run_client_msg(suds, reply_client, reply_cap, doc, data)
+        else:
+            ct = "str" if n % 9 == 4 else CT3[(n // 2) % 3]
+            o = run_reader(suds, doc, data, entry.split("-", 1)[1], ct, URL_KINDS[(n // 3) % 4])
+        if getattr(o, "ctype", "") == "str" and not data.startswith(b"\xef\xbb\xbf"):
+            # the unchanged code rejects str content (TypeError); a tree that accepts it must parse it like the model
+            o.lenient = True
+        return o
 
+    funnel_points = ("parse-string", "client-reply", "reader-store", "doccache-get")
     for k, (label, doc) in enumerate(grid):
-        data = render_doc(doc, sysid_of)
-        for entry in generic_entries:
-            if not thorough and entry in ("reader-cache", "client-msg", "reader-transport") and k % 3:
+        for j, entry in enumerate(generic_entries):
+            if not thorough and entry in ("reader-cache", "client-msg", "reader-transport", "reader-plugin") \
+                    and (k + j) % 3:
                 continue
-            o = run_generic(entry, doc, data, k)
+            n = k * len(generic_entries) + j
+            d = variant(doc, n)
+            o = run_generic(entry, d, render_doc(d, sysid_of), n)
             o.label = "grid:" + label
             outcomes.append(o)
+            if entry in funnel_points:
+                # the anchored parse sites see both standalone variants of every grid document
+                d = variant(doc, n + 1)
+                o = run_generic(entry, d, render_doc(d, sysid_of), n + 3)
+                o.label = "grid:" + label
+                outcomes.append(o)
 
     if thorough:
         n = 0
         for k, doc in enumerate(exhaustive_docs()):
-            data = render_doc(doc, sysid_of)
-            o = run_generic(generic_entries[k % len(generic_entries)] if k % 4 == 0 else "parse-string", doc, data, k)
+            d = dict(doc)
+            d["style"] = style_for(k)
+            data = render_doc(d, sysid_of)
+            o = run_generic(generic_entries[k % len(generic_entries)] if k % 4 == 0 else "parse-string", d, data, k)
             o.label = "exhaustive"
             outcomes.append(o)
             n += 1
@@ -1451,7 +1672,7 @@ def _run(ck, suds, proof_ok):
         ck.extra["exhaustive_scope"] = ("%d documents: every ordered pair of 23 declaration shapes (internal / external "
                                         "general and parameter entities, NDATA, ATTLIST defaults, parameter-entity "
                                         "references; file, http and dead identifiers) x external subset none / planted "
-                                        "/ dead x standalone x 4 bodies" % n)
+                                        "/ dead x standalone absent / no / yes x 4 bodies" % n)
 
     # ---- 2. random documents through the generic entry points --------------
     n_random = 4000 if thorough else 1400
@@ -1459,35 +1680,47 @@ def _run(ck, suds, proof_ok):
         doc = g_doc(rng)
         data = render_doc(doc, sysid_of)
         entry = generic_entries[k % len(generic_entries)]
-        o = run_generic(entry, doc, data, k)
+        o = run_generic(entry, doc, data, rng.randrange(0, 10000))
         o.label = "random"
         outcomes.append(o)
 
-    # ---- 3. SOAP replies with a DOCTYPE ------------------------------------
+    # ---- 3. SOAP replies with a DOCTYPE (injected, and returned by the configured transport) ----
     n_reply = 800 if thorough else 240
     for k in range(n_reply):
         subset, ext, text, attr = g_payload(rng, strong=(k % 2 == 0))
-        doc = mk_doc(subset, reply_body(text, attr), ext=ext, public=bool(k % 3 == 0))
+        doc = g_restyle(rng, mk_doc(subset, reply_body(text, attr), ext=ext, public=bool(k % 3 == 0)))
         data = render_doc(doc, sysid_of)
-        o = run_client_reply(suds, reply_client, reply_cap, doc, data)
+        if k % 3 == 2:
+            o = run_client_send(suds, doc, data, CT3[(k // 3) % 3])
+        else:
+            o = run_client_reply(suds, reply_client, reply_cap, doc, data)
         o.label = "soap-reply"
         outcomes.append(o)
 
-    # ---- 4. WSDL + imported XSD (+ imported WSDL) through Client(...) -------
-    n_load = 500 if thorough else 150
+    # ---- 4. WSDL + imported / included XSD + imported WSDL through Client(...) -------
+    n_load = 500 if thorough else 160
     load_requests_bad = []
     n_named_fetches = 0
+    n_lookalike_loads = 0
     for k in range(n_load):
         via = "store" if k % 2 == 0 else "transport"
-        pre = "suds://c20/" if via == "store" else "http://c20.invalid/"
+        urlkind = URL_KINDS[(k // 2) % 4]
+        if via == "transport" and urlkind == "suds":
+            urlkind = "invalid"
+        ctype = CT3[k % 3]
+        pre = url_prefix(urlkind)
         root_url, imp_url, w2_url = pre + "main.wsdl", pre + "imp.xsd", pre + "second.wsdl"
         inc_url = pre + "inc.xsd"
         s1, e1, t1, a1 = g_payload(rng, strong=True)
         s2, e2, t2, a2 = g_payload(rng, strong=True)
         s3, e3, t3, a3 = g_payload(rng)
         s4, e4, t4, a4 = g_payload(rng, strong=True)
+        if k % 5 == 3:
+            # no DOCTYPE anywhere: the look-alikes / content kinds are the only thing unusual
+            s1, e1, t1, s2, e2, t2, s4, e4, t4 = [], None, [T("plain")], [], None, [T("plain")], [], None, [T("plain")]
+            a1, a2 = [], []
         tns = [("t", TNS)]
-        if k % 3 == 0:
+        if k % 3 == 0 and k % 5 != 3:
             s1 = [("gi", "tnsent", [T(TNS)])] + s1
             tns = [("r", "tnsent")]
         # location attribute: plain text most of the time (an entity reference may make the document ill-formed,
@@ -1495,30 +1728,40 @@ def _run(ck, suds, proof_ok):
         loc = [("t", "http://c20.invalid/svc")] + (a1 if k % 4 == 0 else [])
         name2 = [("t", "T")] + (a2 if k % 5 == 0 else [])
         with_inc = k % 4 == 2
-        wsdl = mk_doc(s1, wsdl_body(t1, loc, tns, imp_url, w2_url if k % 3 == 1 else None,
-                                    inc_url if with_inc else None), ext=e1)
-        xsd = mk_doc(s2, xsd_body(t2, name2), ext=e2, public=True)
-        w2 = mk_doc(s3, wsdl2_body(t3), ext=e3)
-        inc = mk_doc(s4, xsd_body(t4, [("t", "U")], tns=TNS), ext=e4)
+        with_lookalikes = k % 5 in (0, 2, 3)
+        n_lookalike_loads += with_lookalikes
+        sx = g_lookalikes_schema(rng, pre) if with_lookalikes else ()
+        dx = g_lookalikes_wsdl(rng, pre) if with_lookalikes and k % 2 else ()
+        ix = g_lookalikes_schema(rng, pre) if with_lookalikes and k % 3 else ()
+        wsdl = g_restyle(rng, mk_doc(s1, wsdl_body(t1, loc, tns, imp_url, w2_url if k % 3 == 1 else None,
+                                                   inc_url if with_inc else None, sx, dx), ext=e1))
+        xsd = g_restyle(rng, mk_doc(s2, xsd_body(t2, name2, extra=ix), ext=e2, public=True))
+        w2 = g_restyle(rng, mk_doc(s3, wsdl2_body(t3), ext=e3))
+        inc = g_restyle(rng, mk_doc(s4, xsd_body(t4, [("t", "U")], tns=TNS), ext=e4))
+        decoy = mk_doc([], E("xsd:schema", [("xmlns:xsd", XSD_NS), ("targetNamespace", "urn:c20:decoy")],
+                             E("xsd:element", [("name", "decoy~leak~"), ("type", "xsd:string")])))
         docs = {root_url: (wsdl, render_doc(wsdl, sysid_of)), imp_url: (xsd, render_doc(xsd, sysid_of)),
-                w2_url: (w2, render_doc(w2, sysid_of)), inc_url: (inc, render_doc(inc, sysid_of))}
-        named = [root_url, imp_url] + ([w2_url] if k % 3 == 1 else []) + ([inc_url] if with_inc else [])
-        outs, requested, err, cap = run_client_load(suds, docs, root_url, via)
+                w2_url: (w2, render_doc(w2, sysid_of)), inc_url: (inc, render_doc(inc, sysid_of)),
+                pre + "decoy.xsd": (decoy, render_doc(decoy, sysid_of))}
+        # the NAMED set is computed from the documents, independently of suds and namespace-aware
+        named = named_closure(docs, root_url)
+        outs, requested, err, cap, ctx = run_client_load(suds, docs, root_url, via, ctype)
         for o in outs:
-            o.label = "client-load/" + via
+            o.label = "client-load/%s/%s/%s" % (via, urlkind, ctype)
             outcomes.append(o)
-        # only_named_fetches: the transport / store was asked for exactly the documents named by the caller
-        # and by import references (all of them when the load succeeds), never for a DOCTYPE identifier
-        fetched = requested if via == "transport" else cap.loaded
+        # only_named_fetches: the store / transport was asked for exactly the documents named by the caller
+        # and by import / include references (all of them when the load succeeds), never for anything else
+        fetched = list(cap.loaded) + [u for u in requested if u not in cap.loaded]
         bad = [u for u in fetched if u not in named]
-        if err is None and via == "transport" and set(requested) != set(named):
-            bad = bad or ["expected %r, requested %r" % (named, requested)]
+        if err is None and set(fetched) != set(named):
+            bad = bad or ["expected %r, fetched %r" % (named, fetched)]
         if bad:
-            load_requests_bad.append((bad, docs[root_url][1]))
+            load_requests_bad.append((bad, docs[root_url][1], root_url, via, ctype, named, fetched))
         n_named_fetches += len(fetched)
         ck.count("client-load-" + ("ok" if err is None else "raised"))
         if os.environ.get("C20_DEBUG") and err is not None:
             sys.stderr.write("client-load raised: %s\n" % err[:200])
+    ck.extra["client_loads_with_foreign_namespace_lookalikes"] = n_lookalike_loads
 
     ck.extra["transport_requests_outside_named_documents"] = len(load_requests_bad)
     ck.extra["named_document_fetches_observed"] = n_named_fetches
@@ -1545,6 +1788,9 @@ def _run(ck, suds, proof_ok):
         ck.seen((o.entry, o.data), nontrivial=bool(feats & {"ext-ge", "ext-pe", "ext-subset", "xinclude-like"}))
         ck.count("entry:" + o.entry)
         ck.count("outcome:" + o.kind)
+        ck.count("content:" + getattr(o, "ctype", "bytes"))
+        if getattr(o, "urlkind", None):
+            ck.count("url:" + o.urlkind)
         for f in sorted(feats):
             ck.count("doc:" + f)
     for i in (0, len(outcomes) // 3, len(outcomes) // 2, len(outcomes) - 1):
@@ -1575,14 +1821,26 @@ def _run(ck, suds, proof_ok):
                 o.entry,
                 "reached outside the document" if kind == "external-access" else "included external content",
                 "; ".join("%s %s" % (e[0], e[1]) for e in o.events[:3]) or "marker text in the result"),
-            {"entry": o.entry, "document": o.data.decode("utf-8"), "base": WORLD.base, "port": WORLD.port,
+            {"entry": o.entry, "document": o.data.decode("utf-8", "replace"), "base": WORLD.base, "port": WORLD.port,
+             "content_type": getattr(o, "ctype", "bytes"), "url_kind": getattr(o, "urlkind", None),
              "events": [list(map(str, e)) for e in o.events[:10]],
              "live_external_ges": o.live, "tree": repr(o.flat)[:1000], "label": getattr(o, "label", ""),
              "how": "./check C20 --replay <this file>  (re-parses `document` through `entry` under the audit hook)"})
-    for bad, data in load_requests_bad[:1]:
-        ck.failing_input("C20:transport-asked-for-unnamed-document",
-                         "loading a WSDL asked the transport for %r, which no import/include names" % (bad,),
-                         {"entry": "client-load", "document": data.decode("utf-8"), "requested": bad})
+    for bad, data, root_url, via, ctype, named, fetched in load_requests_bad[:1]:
+        ck.failing_input("C20:fetched-unnamed-document",
+                         "loading a WSDL fetched %r through the %s: no {XSD}import/include or {WSDL}import names it "
+                         "(%d load(s) affected)" % (bad[:3], via, len(load_requests_bad)),
+                         {"entry": "client-load", "document": data.decode("utf-8", "replace"), "root_url": root_url,
+                          "via": via, "content_type": ctype, "named": named, "fetched": fetched,
+                          "base": WORLD.base, "port": WORLD.port})
+    for o in outcomes:
+        fp = getattr(o, "fetch_problem", None)
+        if fp:
+            ck.failing_input("C20:store-or-transport-bypassed:" + o.entry, "%s: %s" % (o.entry, fp),
+                             {"entry": o.entry, "document": o.data.decode("utf-8", "replace"),
+                              "content_type": getattr(o, "ctype", "bytes"), "url_kind": getattr(o, "urlkind", None),
+                              "base": WORLD.base, "port": WORLD.port})
+            break
 
     # A parser with the feature ON but a non-default EntityResolver is outside the model (what the resolver
     # returns is arbitrary code): such parses are judged by their observed effects only.
@@ -1594,10 +1852,14 @@ def _run(ck, suds, proof_ok):
                         "the model does not apply to them, verdict by audited effects only" % len(opaque))
         for pr in ("c20_flags_agree", "c20_agrees"):
             res[pr] = [i for i in res[pr] if i not in opaque]
-    unobserved = [o for o in outcomes if o.live is None]
+    unobserved = [o for o in outcomes if o.live is None
+                  and not (getattr(o, "lenient", False) and o.kind == "raise")]
     ck.extra["parses_without_observed_sax_parser"] = len(unobserved)
     flags_bad = [i for i in res["c20_flags_agree"]]
-    agree_bad = [i for i in res["c20_agrees"]]
+    agree_bad = [i for i in res["c20_agrees"]
+                 if not (getattr(outcomes[i], "lenient", False) and outcomes[i].kind == "raise")]
+    ck.extra["str_content_rejected_by_implementation"] = sum(
+        1 for o in outcomes if getattr(o, "lenient", False) and o.kind == "raise")
     if os.environ.get("C20_DEBUG"):
         with open(os.environ["C20_DEBUG"], "w") as f:
             for i in agree_bad:
@@ -1658,17 +1920,40 @@ def replay(ck, payload):
         data = text.encode("utf-8")
         entry = payload.get("entry", "parse-string")
         doc = None
+        ctype = payload.get("content_type") or "bytes"
+        urlkind = payload.get("url_kind")
         if entry == "parse-file":
-            o = run_parse_file(suds, doc, data, True)
+            o = run_parse_file(suds, doc, data, ctype if ctype in FILE_KINDS else "real-file")
         elif entry == "doccache-get":
             o = run_doccache_get(suds, doc, data)
+        elif entry == "client-reply" and ctype != "bytes":
+            o = run_client_send(suds, doc, data, ctype)
         elif entry in ("client-reply", "client-msg"):
             c, cap = make_reply_client(suds)
             o = (run_client_reply if entry == "client-reply" else run_client_msg)(suds, c, cap, doc, data)
         elif entry.startswith("reader-"):
-            o = run_reader(suds, doc, data, entry.split("-", 1)[1])
+            o = run_reader(suds, doc, data, entry.split("-", 1)[1], ctype if ctype in CTYPES else "bytes", urlkind)
+        elif entry == "client-load" and payload.get("root_url"):
+            # a single-document load through the same store / transport set-up
+            root_url = payload["root_url"].replace(payload.get("base") or "\0", WORLD.base)
+            if payload.get("port"):
+                root_url = root_url.replace("127.0.0.1:%s/" % payload["port"], "127.0.0.1:%d/" % WORLD.port)
+            docs = {root_url: (None, data)}
+            outs, requested, err, cap, ctx = run_client_load(suds, docs, root_url, payload.get("via", "store"),
+                                                             ctype if ctype in CTYPES else "bytes")
+            o = Outcome("client-load", None, data)
+            o.kind, o.exc = ("doc" if err is None else "raise"), err
+            o.flat = outs[0].flat if outs else None
+            o.events, o.hits, o.parsers = ctx.events, ctx.hits, ctx.parsers
+            named = named_closure(docs, root_url)
+            fetched = list(cap.loaded) + [u for u in requested if u not in cap.loaded]
+            extra = [u for u in fetched if u not in named]
+            print("named documents:", named)
+            print("fetched through store / transport:", fetched)
+            if extra:
+                o.fetch_problem = "fetched %r, which no import / include names" % (extra,)
         else:
-            o = run_parse_string(suds, doc, data)
+            o = run_parse_string(suds, doc, data, ctype if ctype in CTYPES else "bytes")
         print("entry:", entry)
         print("document (system identifiers re-pointed at this run's planted resources):", text[:2000])
         print("outcome:", o.kind, o.exc or "")
@@ -1676,7 +1961,10 @@ def replay(ck, payload):
         print("parser flags (external_ges, external_pes, default resolver, class):", o.parsers)
         print("audit events outside the allowed set:", o.events)
         print("loopback server hits:", o.hits)
-        bad = bool(o.events or o.hits or (o.flat and MARK in flat_text(o.flat)))
+        print("content handed over as:", ctype, " url kind:", urlkind)
+        if getattr(o, "fetch_problem", None):
+            print("store / transport:", o.fetch_problem)
+        bad = bool(o.events or o.hits or (o.flat and MARK in flat_text(o.flat)) or getattr(o, "fetch_problem", None))
         print("property C20 on this input:", "VIOLATED" if bad else "holds")
         return 1 if bad else 0
     finally:
